@@ -34,6 +34,7 @@ for d in sorted(glob.glob("/tmp/ben-out3/C*/b[123]")):
                       "mechanism (match, dataclasses, NamedTuple, walrus, type hints), b9: a small new feature that is off by default")
     special = {
         ("C05", "b3"): "first run: false alarm of C05, C02, C03, C04, C11, C12 (AttributeError: the stand-in for the time module inside ledger.protocol had no monotonic); corrected in harness.py / opstub.py (stand-in modules fall back to the real ones); silent since",
+        ("C04", "b1"): "first run: false alarm of C11 (2 keys, failed-reconnect-code): the oracle wanted -905 from a uiHeartbeat whose own reconnection fails once, where the change tries again, gets the device back and completes the nominal dialogue; the statement's device-error code is for a connection that cannot be re-established - corrected in c11.py (such runs are dont_care; the same for a repair that retries within its request, benign C11-e1); all other checks silent",
         ("C10", "b3"): "first run: false alarm of C10 (5 keys, AttributeError: the stand-in for os inside ledger.pin / the managers had no stat); corrected in memfs.py (falls back to the real os, routed to the in-memory files; stat reports the modelled mode); silent since",
     }
     if (pid, b) in special:
